@@ -45,7 +45,7 @@ EXPECTED_PROBES = ["roundtrip_request", "roundtrip_response", "piv_len_1", "piv_
                    "piv_len_5", "fault_flip_opt", "fault_flip_ct", "fault_piv", "fault_kid", "fault_ctx", "fault_flags",
                    "fault_trunc", "fault_drop_opt", "fault_swap_ct", "fault_swap_opt", "foreign_keys", "cross_pairing",
                    "cross_pairing_other_context", "response_own_piv", "response_replayed", "id_context_present",
-                   "empty_sender_id", "allflips_messages", "rejected_decode_error", "rejected_tag", "both_directions"]
+                   "empty_sender_id", "allflips_messages", "rejected_decode_error", "rejected_tag", "both_directions", "oversized_response_attempted"]
 
 MAX_SEQNO = 2 ** 40 - 1
 ALGS = ["AES-CCM-16-64-128", "AES-CCM-16-64-256", "AES-CCM-64-64-128", "AES-CCM-64-64-256",
@@ -219,6 +219,8 @@ def gen(r, tier):
             "cross_other": r.chance(0.2),
             "replay_resp": r.chance(0.15),
         })
+        if ops[-1]["own_piv"] and r.chance(0.3):
+            ops[-1]["big_between"] = True
     if r.chance(0.3):
         # both ends use their context in both roles: some exchanges run the other way round (B asks, A answers), and
         # the two senders' sequence numbers may well coincide (they are counted per sender)
@@ -264,6 +266,11 @@ def corpus():
                 "ops": [_simple_op(cross=[1, 2], cross_other=True, foreign=["secret", "salt", "idctx", "reflect", "alg"]),
                         _simple_op(cross=[0, 2], own_piv=True, replay_resp=True),
                         _simple_op(cross=[0, 1], cross_other=True)], "name": "cross-pairing"})
+    # a response that cannot be protected (too large) between two that can
+    for alg in ("AES-CCM-16-64-128", "AES-CCM-64-64-128", "ChaCha20/Poly1305"):
+        out.append({"ctx": _fixed_ctx(sid="01", rid="02", alg=alg), "ops": [_simple_op(own_piv=True, big_between=True),
+                                                                            _simple_op(own_piv=True, big_between=True, rev=True)],
+                    "name": "oversized-response-between"})
     # both ends ask and answer with one context each, the two senders' sequence numbers coinciding
     for own in (False, True):
         out.append({"ctx": _fixed_ctx(sid="01", rid="02", seq_a=0, seq_b=0),
@@ -731,6 +738,7 @@ def execute(sim, scn):
             rids_a2.append(None)
 
     intact_responses = []  # (exchange, datagram)
+    nonce_seen = {}
     for i, op in enumerate(ops):
         if prepared[i] is None:
             continue
@@ -773,6 +781,16 @@ def execute(sim, scn):
         sig.update(repr((rspec["code"], [n for n, _ in rspec["opts"]], len(rspec["payload"]))).encode())
         rounds = 2 if op.get("own_piv") else 1
         for rnd in range(rounds):
+            if rnd == 1 and op.get("big_between"):
+                # between the two responses the responder tries to send one that is too large for the algorithm (or
+                # for anything): protect() may refuse it -- what follows must still never use a nonce twice
+                sim.probe("oversized_response_attempted")
+                try:
+                    R["Q"].protect(env.build_message(rc.CONTENT, [], b"L" * 70000), rid_b)
+                    sim.probe("oversized_response_protected")
+                except Exception as e:
+                    sim.probe("oversized_response_refused")
+                    sig.update(type(e).__name__.encode())
             rmsg = env.build_message(rspec["code"], [(n, bytes.fromhex(v)) for n, v in rspec["opts"]],
                                      bytes.fromhex(rspec["payload"]))
             try:
@@ -787,6 +805,15 @@ def execute(sim, scn):
             side = "response" if rnd == 0 else "response-own-piv"
             rref = check_outer(i, side, rdata, rspec, False)
             ropt = rc.opt1(rref, rc.OSCORE) or b""
+            # one nonce, one message: a response either brings its own Partial IV (the responder's numbering) or uses
+            # the request's -- the latter at most once
+            own = env.lenient_oscore_option(ropt)["piv"]
+            nk = ("responder", bool(R["rev"]), int.from_bytes(own, "big")) if own is not None else \
+                ("requester", bool(R["rev"]), int.from_bytes(env.lenient_oscore_option(orig_opt)["piv"] or b"", "big"))
+            if nk in nonce_seen:  # (every pass through here is one protect() call)
+                sim.violation("C11/nonce-used-for-two-messages", dict(ident(i, side), numbering=nk[0], partial_iv=nk[2],
+                                                                      own_partial_iv=own is not None))
+            nonce_seen.setdefault(nk, rref["payload"])
             if rnd == 1:
                 sim.probe("response_own_piv")
                 if env.lenient_oscore_option(ropt)["piv"] is None:
